@@ -54,10 +54,10 @@ def label_lists(ctx, f):
     return c07._label_lists(ctx, f)
 
 
-def str_consts(e):
+def str_consts(e, f=None):
     from .props import c07
 
-    return c07._str_consts(e)
+    return c07._str_consts(e, f)
 
 
 def classify(ctx, pl: Pipeline) -> List[Writer]:
@@ -164,7 +164,7 @@ def _slice_excludes_balance(ctx, s: RowStore) -> bool:
                 if isinstance(c, ast.Call):
                     for k in c.keywords:
                         if k.arg == "unbalance_values":
-                            lits = str_consts(k.value)
+                            lits = str_consts(k.value, f)
                             if lits is not None and "Balance" not in lits:
                                 found_filter = True
                             else:
